@@ -408,7 +408,9 @@ func randHeld(r *c.Rng, workers int) Case {
 // ---------------------------------------------------------------- run
 
 func runHeld(o *c.Out, k Case) {
+	k.LogLevel = setLogLevel(pickLevel(o, k.LogLevel))
 	execHeld(o, &k)
+	o.Count(k.Side + ":log-level=" + k.LogLevel)
 	nonNoop, txns := 0, 0
 	for _, ts := range k.Workers {
 		for _, t := range ts {
